@@ -6,6 +6,7 @@ import (
 	"fmt"
 	"go/ast"
 	"go/types"
+	"strings"
 )
 
 // dynamic type tags of interface{} values seen by the sanitizers
@@ -71,6 +72,24 @@ func (e *Ev) toIface(v Val, n ast.Node) VIface {
 
 func (e *Ev) evTypeAssert(x *ast.TypeAssertExpr, commaOk bool) Val {
 	v := e.ev(x.X)
+	if rv, ok := v.(VRef); ok && strings.HasPrefix(rv.Elem, "iface:") {
+		// a modelled interface value (parse.Node): the dynamic type is an uninterpreted function of the
+		// reference; a successful assertion yields the same reference at the asserted type
+		t := e.typeOf(x.Type)
+		en, ok := elemName(t)
+		if !ok {
+			e.unsupp(x, "type assertion of a %s to %s", rv.Elem, t)
+		}
+		e.fx.specUsed["dyntype"] = true
+		e.fx.trusted["interface values of text/template/parse.Node never hold a typed nil pointer; their dynamic type is a function of the reference (assumed)"] = true
+		okT := sAnd(sNot(sEq(rv.T, "0")), sEq("(dyntype "+rv.T+")", fmt.Sprintf("%d", typeID(en))))
+		val := VRef{rv.T, en}
+		if commaOk {
+			return VTuple{val, VBool{okT}}
+		}
+		e.safety("typeassert", "typeassert", x.Pos(), okT, "type assertion cannot fail")
+		return val
+	}
 	iv, ok := v.(VIface)
 	if !ok {
 		e.unsupp(x, "type assertion on %T", v)
@@ -92,6 +111,15 @@ func (e *Ev) evTypeAssert(x *ast.TypeAssertExpr, commaOk bool) Val {
 	}
 	e.safety("typeassert", "typeassert", x.Pos(), okT, "type assertion cannot fail")
 	return val
+}
+
+// typeID gives a stable positive number to a struct type name (dynamic types of modelled interfaces).
+func typeID(name string) int {
+	h := 0
+	for i := 0; i < len(name); i++ {
+		h = (h*131 + int(name[i])) % 1000003
+	}
+	return h + 1
 }
 
 // VRangeTable is a package-level *unicode.RangeTable given by its ranges (stride 1).
